@@ -92,10 +92,10 @@ func (e *Engine) accessorParams(fn *ssa.Function, gds []guardDecl) map[int]strin
 				for _, gd := range gds {
 					if lt, lf := e.foreignLock(gd.Decl); lt != nil {
 						if types.Identical(lt, ot) && fname == lf {
-							foreignLocked[gd.Lock] = true
+							foreignLocked[gd.Decl.Pkg+"|"+gd.Lock] = true
 						}
 						if types.Identical(gd.T, ot) && fname == gd.Field {
-							foreignTouched[gd.Lock] = true
+							foreignTouched[gd.Decl.Pkg+"|"+gd.Lock] = true
 						}
 						continue
 					}
@@ -218,6 +218,48 @@ func (e *Engine) guardFunctions() ([]*ssa.Function, map[*ssa.Function]map[int]st
 			}
 		}
 	}
+	// a function that calls a lock-free accessor of foreign-guarded fields and does not take that lock itself is such an
+	// accessor too (its own callers hold the lock): closure under static calls
+	for changed := true; changed; {
+		changed = false
+		for _, fn := range fns {
+			for _, b := range fn.Blocks {
+				for _, ins := range b.Instrs {
+					call, ok := ins.(*ssa.Call)
+					if !ok {
+						continue
+					}
+					callee := call.Call.StaticCallee()
+					if callee == nil || callee == fn {
+						continue
+					}
+					for pi, l := range acc[callee] {
+						if pi >= 0 {
+							continue
+						}
+						lt, lf, _ := e.resolveForeignLock(l)
+						if lt == nil || e.takesLock(fn, lt, lf) {
+							continue
+						}
+						have := false
+						for pj, l2 := range acc[fn] {
+							if pj < 0 && l2 == l {
+								have = true
+							}
+						}
+						if !have {
+							if acc[fn] == nil {
+								acc[fn] = map[int]string{}
+							}
+							acc[fn][-1-len(acc[fn])-100] = l
+							need[fn] = true
+							changed = true
+						}
+					}
+				}
+			}
+		}
+	}
 	// An accessor whose callers cannot all be seen is not trusted to be entered with the lock held: its guarded accesses
 	// are then checked unconditionally.
 	esc := e.escapingFuncs()
@@ -310,7 +352,7 @@ func (e *Engine) VerifyGuards(fn *ssa.Function, acc map[*ssa.Function]map[int]st
 	key := relName(fn)
 	con := e.contracts[pk+"::"+key]
 	short := shortPkg(pk) + "." + key
-	synth := &Contract{Kind: "func", Pkg: pk, Key: key, Loops: map[int]*LoopSpec{}, Flags: map[string]string{"nosafety": "true", "guards-only": "true"}, Model: "int", Props: []string{"C20"}}
+	synth := &Contract{Kind: "func", Pkg: pk, Key: key, Loops: map[int]*LoopSpec{}, Flags: map[string]string{"nosafety": "true", "guards-only": "true"}, Model: "int", Props: []string{e.guardPropName()}}
 	if con != nil {
 		// reuse loop invariants and requires (they may be needed to reach the accesses); drop everything else
 		synth.Model = con.Model
@@ -336,7 +378,7 @@ func (e *Engine) VerifyGuards(fn *ssa.Function, acc map[*ssa.Function]map[int]st
 	fc.guardMode = true
 	fc.guardAcc = acc
 	fc.autoLoopInv = true
-	fc.props = []string{"C20"}
+	fc.props = []string{e.guardPropName()}
 	func() {
 		defer func() {
 			if r := recover(); r != nil {
@@ -350,7 +392,7 @@ func (e *Engine) VerifyGuards(fn *ssa.Function, acc map[*ssa.Function]map[int]st
 		fc.verifyBody(short)
 	}()
 	if len(u.Unsupported) > 0 {
-		u.Obls = append(u.Obls, &Obligation{Name: short + "/unsupported", Kind: "unsupported", Func: short, Goal: "false", PC: "true", Unit: u, Props: []string{"C20"}, Structural: true, StructOK: false, Note: strings.Join(u.Unsupported, "; "), Desc: "function uses a construct outside the verified subset: its guarded accesses are not decided"})
+		u.Obls = append(u.Obls, &Obligation{Name: short + "/unsupported", Kind: "unsupported", Func: short, Goal: "false", PC: "true", Unit: u, Props: []string{e.guardPropName()}, Structural: true, StructOK: false, Note: strings.Join(u.Unsupported, "; "), Desc: "function uses a construct outside the verified subset: its guarded accesses are not decided"})
 	}
 	// keep only guard obligations (and failures to analyse)
 	var kept []*Obligation
@@ -493,4 +535,42 @@ func (e *Engine) ifaceOnlyEscape(fn *ssa.Function, esc map[*ssa.Function]string)
 func (e *Engine) foreignLockIsNil(g *GuardedDecl) bool {
 	lt, _ := e.foreignLock(g)
 	return lt == nil
+}
+
+// resolveForeignLock: "declaring package|LT.lock" (as recorded for lock-free accessors of foreign-guarded fields).
+func (e *Engine) resolveForeignLock(s string) (types.Type, string, string) {
+	pkg := ""
+	if i := strings.Index(s, "|"); i >= 0 {
+		pkg, s = s[:i], s[i+1:]
+	}
+	dot := strings.LastIndex(s, ".")
+	if dot < 0 {
+		return nil, "", s
+	}
+	return e.lookupType(pkg, s[:dot]), s[dot+1:], s
+}
+
+func (e *Engine) guardPropName() string {
+	if e.guardProp == "" {
+		return "C20"
+	}
+	return e.guardProp
+}
+
+// takesLock: fn takes the address of field lf of an object of type lt (it locks it itself).
+func (e *Engine) takesLock(fn *ssa.Function, lt types.Type, lf string) bool {
+	for _, b := range fn.Blocks {
+		for _, ins := range b.Instrs {
+			fa, ok := ins.(*ssa.FieldAddr)
+			if !ok {
+				continue
+			}
+			ot := fa.X.Type().Underlying().(*types.Pointer).Elem()
+			st, ok := ot.Underlying().(*types.Struct)
+			if ok && types.Identical(ot, lt) && st.Field(fa.Field).Name() == lf {
+				return true
+			}
+		}
+	}
+	return false
 }
